@@ -20,7 +20,7 @@ def verdict(r):
     return ", ".join(kinds) if kinds else "**missed**"
 print("| Change | Breaks | What it is / what it needs to manifest | Reported by |")
 print("|---|---|---|---|")
-for d in sorted(glob.glob(os.path.join(ROOT, "seeded", "S-*"))):
+for d in sorted(glob.glob(os.path.join(ROOT, "seeded", "S*-*"))):
     m = json.load(open(d + "/meta.json")); sid = os.path.basename(d)
     r = seeded.get(sid, {})
     print("| %s | %s | %s — *needs:* %s | %s |" % (sid, " ".join(m["breaks"]), m["summary"].replace("|", "/")[:160], m["needs_to_manifest"].replace("|", "/")[:170], verdict(r) if r else "not run"))
